@@ -490,6 +490,13 @@ func (g *gen) render() {
 		if i >= len(names) {
 			n += fmt.Sprint(i)
 		}
+		// file names spelled only with letters of the extension (follow-schema derives the name of the
+		// generated file from the schema file's name minus its extension); chosen without consuming
+		// randomness so that every other aspect of the project stays as it was
+		if k := (nf*7 + len(texts[0].String())) % 5; nf >= 2 && i == nf-1 && k < 3 {
+			n = []string{"graph", "a", "hal"}[k]
+			g.feat("schema_file_named_with_extension_letters")
+		}
 		ext := ".graphql"
 		if g.o.Dir != "" {
 			n = g.o.Dir + "/" + n
